@@ -32,7 +32,9 @@ type Spec struct {
 	Focus bool
 	w      *world.World
 	os     map[string][]scen.Oracle
+	firstNonce uint64 // first event nonce the external model emits
 	fx     scen.Token
+	usdt   scen.Token // second token (Focus): batch nonces are shared by all tokens, the contract's nonce rule is per token
 }
 
 func (s *Spec) Name() string { return fmt.Sprintf("c06/%s/params=%v/focus=%v", s.Chain, s.Params, s.Focus) }
@@ -42,12 +44,14 @@ type Event struct {
 	Height uint64
 	Kind   string // deposit | batch | call
 	N      uint64
+	Tok    string // batch events: the token contract of the batch
 }
 
 type KBatch struct {
 	Nonce   uint64
 	Timeout uint64
 	IDs     []uint64
+	Tok     string // token contract: the external contract keeps its last-executed batch nonce per token
 }
 
 type Model struct {
@@ -55,7 +59,7 @@ type Model struct {
 	Height    uint64
 	Events    []Event
 	Relayed   int // number of events relayed
-	BatchDone uint64
+	BatchDone map[string]uint64 // per token contract
 	CallDone  map[uint64]bool
 	ExtTx     map[uint64]bool // pool transfer ids executed on the external chain
 	ExtCall   map[uint64]bool
@@ -90,6 +94,16 @@ func (s *Spec) Init() *explore.State {
 	s.os = map[string][]scen.Oracle{s.Chain: scen.SetupOracles(w, ctx, s.Chain, []string{s.Chain + "-o1"}, []int64{10000})}
 	nonces := map[string]uint64{}
 	s.fx = scen.RegisterFX(w, ctx, s.os, nonces, extHeight0)
+	if s.Focus {
+		s.usdt = scen.RegisterModuleToken(w, ctx, "USDT", map[string][]scen.Oracle{s.Chain: s.os[s.Chain]}, nonces, extHeight0)
+		// u1 holds usdt in the chain's bridge denomination (what an observed deposit leaves with the receiver)
+		nonces[s.Chain]++
+		scen.Observe(w, ctx, s.Chain, s.os[s.Chain], scen.SendToFxClaim(s.Chain, nonces[s.Chain], extHeight0, s.usdt.Ext[s.Chain], 10, scen.ExtAddr(s.Chain, "depositor"), w.A("u1").Acc(), "", ""))
+		if r := w.CallABI(ctx, w.A("rel"), cctypes.GetAddress(), cctypes.GetABI(), nil, 800000, "executeClaim", s.Chain, new(big.Int).SetUint64(nonces[s.Chain])); !r.Success() {
+			panic("set-up deposit: " + r.String())
+		}
+	}
+	s.firstNonce = nonces[s.Chain] + 1
 	// a second chain with a bonded oracle on which nothing has ever been observed
 	s.os[second] = scen.SetupOracles(w, ctx, second, []string{second + "-o1"}, []int64{10000})
 	// short timeouts: 2 external blocks for batches and bridge calls; no projection for small fxcore height differences
@@ -99,7 +113,7 @@ func (s *Spec) Init() *explore.State {
 		p.BridgeCallTimeout = 3_600_001
 		p.AverageBlockTime = 5_000
 	})
-	m := &Model{Height: extHeight0, Events: nil, Relayed: 0, CallDone: map[uint64]bool{}, ExtTx: map[uint64]bool{}, ExtCall: map[uint64]bool{}, KBatches: map[uint64]*KBatch{}, KCalls: map[uint64]uint64{},
+	m := &Model{Height: extHeight0, Events: nil, Relayed: 0, BatchDone: map[string]uint64{}, CallDone: map[uint64]bool{}, ExtTx: map[uint64]bool{}, ExtCall: map[uint64]bool{}, KBatches: map[uint64]*KBatch{}, KCalls: map[uint64]uint64{},
 		RefundTx: map[uint64]bool{}, RefundCall: map[uint64]bool{}, MaxObserved: extHeight0}
 	return &explore.State{W: w, Ctx: ctx, Model: m}
 }
@@ -139,7 +153,7 @@ func (s *Spec) wrap(name string, relayed *Event, f func(c *explore.State)) explo
 			}
 			switch {
 			case relayed != nil && relayed.Kind == "batch" && relayed.N == n: // executed
-			case relayed != nil && relayed.Kind == "batch" && relayed.N > n: // superseded: the contract's nonce rule forbids it for ever
+			case relayed != nil && relayed.Kind == "batch" && relayed.N > n && m.KBatches[n] != nil && relayed.Tok == m.KBatches[n].Tok: // superseded: the contract's per-token nonce rule forbids it for ever
 			case relayed != nil && relayed.Height >= to: // timed out, proven by an observed event
 			case relayed != nil:
 				c.Violate("release-only-after-observed-timeout", sig("batch-released-before-its-timeout-was-observed"), fmt.Sprintf("%s: batch %d (timeout %d) cancelled while handling an event at external height %d", name, n, to, relayed.Height))
@@ -190,26 +204,56 @@ func (s *Spec) Ops(st *explore.State) []explore.Op {
 	u1 := s.w.A("u1")
 	var ops []explore.Op
 	// ---- fxcore side
+	type tokn struct {
+		name, sendDenom, batchDenom, ext string
+	}
+	toks := []tokn{{"FX", "FX", "FX", s.fx.Ext[ch]}}
+	if s.Focus {
+		toks = append(toks, tokn{"usdt", s.usdt.Base, s.usdt.Bridge[ch], s.usdt.Ext[ch]})
+	}
 	if scen.LastTxPoolID(s.w, ctx, ch) < 2 {
-		ops = append(ops, s.wrap("Send", nil, func(c *explore.State) {
-			r := s.w.Deliver(c.Ctx, &cctypes.MsgSendToExternal{ChainName: ch, Sender: u1.Bech(), Dest: scen.ExtAddr(ch, "u1-ext"), Amount: sdk.NewInt64Coin("FX", 2), BridgeFee: sdk.NewInt64Coin("FX", 1)})
-			ok(c, r.OK())
-		}))
+		for _, t := range toks {
+			t := t
+			name := "Send"
+			if t.name != "FX" {
+				name = "Send(" + t.name + ")"
+			}
+			ops = append(ops, s.wrap(name, nil, func(c *explore.State) {
+				r := s.w.Deliver(c.Ctx, &cctypes.MsgSendToExternal{ChainName: ch, Sender: u1.Bech(), Dest: scen.ExtAddr(ch, "u1-ext"), Amount: sdk.NewInt64Coin(t.sendDenom, 2), BridgeFee: sdk.NewInt64Coin(t.sendDenom, 1)})
+				ok(c, r.OK())
+			}))
+		}
 	}
 	if len(k.GetUnbatchedTransactions(ctx)) > 0 {
-		ops = append(ops, s.wrap("RequestBatch", nil, func(c *explore.State) {
-			r := s.w.Deliver(c.Ctx, &cctypes.MsgRequestBatch{ChainName: ch, Sender: s.os[ch][0].Bridger.Bech(), Denom: "FX", MinimumFee: sdkmath.NewInt(1), FeeReceive: scen.ExtAddr(ch, "feercv"), BaseFee: sdkmath.ZeroInt()})
-			ok(c, r.OK())
-			if r.OK() {
-				n := scen.LastBatchID(s.w, c.Ctx, ch)
-				b := k.GetOutgoingTxBatch(c.Ctx, s.fx.Ext[ch], n)
-				kb := &KBatch{Nonce: n, Timeout: b.BatchTimeout}
-				for _, tx := range b.Transactions {
-					kb.IDs = append(kb.IDs, tx.Id)
+		for _, t := range toks {
+			t := t
+			has := false
+			for _, tx := range k.GetUnbatchedTransactions(ctx) {
+				if tx.Token.Contract == t.ext {
+					has = true
 				}
-				c.Model.(*Model).KBatches[n] = kb
 			}
-		}))
+			if !has {
+				continue
+			}
+			name := "RequestBatch"
+			if t.name != "FX" {
+				name = "RequestBatch(" + t.name + ")"
+			}
+			ops = append(ops, s.wrap(name, nil, func(c *explore.State) {
+				r := s.w.Deliver(c.Ctx, &cctypes.MsgRequestBatch{ChainName: ch, Sender: s.os[ch][0].Bridger.Bech(), Denom: t.batchDenom, MinimumFee: sdkmath.NewInt(1), FeeReceive: scen.ExtAddr(ch, "feercv"), BaseFee: sdkmath.ZeroInt()})
+				ok(c, r.OK())
+				if r.OK() {
+					n := scen.LastBatchID(s.w, c.Ctx, ch)
+					b := k.GetOutgoingTxBatch(c.Ctx, t.ext, n)
+					kb := &KBatch{Nonce: n, Timeout: b.BatchTimeout, Tok: t.ext}
+					for _, tx := range b.Transactions {
+						kb.IDs = append(kb.IDs, tx.Id)
+					}
+					c.Model.(*Model).KBatches[n] = kb
+				}
+			}))
+		}
 		for _, tx := range k.GetUnbatchedTransactions(ctx) {
 			if s.Focus {
 				break
@@ -285,7 +329,7 @@ func (s *Spec) Ops(st *explore.State) []explore.Op {
 	if len(m.Events) < 5 {
 		ops = append(ops, explore.Op{Name: "ExtDeposit", Run: func(c *explore.State) {
 			cm := c.Model.(*Model)
-			cm.Events = append(cm.Events, Event{Nonce: uint64(len(cm.Events)) + 2, Height: cm.Height, Kind: "deposit"})
+			cm.Events = append(cm.Events, Event{Nonce: uint64(len(cm.Events)) + s.firstNonce, Height: cm.Height, Kind: "deposit"})
 			ok(c, true)
 		}})
 	}
@@ -296,15 +340,15 @@ func (s *Spec) Ops(st *explore.State) []explore.Op {
 	sort.Slice(bn, func(i, j int) bool { return bn[i] < bn[j] })
 	for _, n := range bn {
 		kb := m.KBatches[n]
-		if m.Height < kb.Timeout && m.BatchDone < n { // the contract's two admission rules
+		if m.Height < kb.Timeout && m.BatchDone[kb.Tok] < n { // the contract's two admission rules (last executed nonce is kept per token)
 			n := n
 			ops = append(ops, explore.Op{Name: fmt.Sprintf("ExtSubmitBatch(%d)", n), Run: func(c *explore.State) {
 				cm := c.Model.(*Model)
-				cm.BatchDone = n
+				cm.BatchDone[cm.KBatches[n].Tok] = n
 				for _, id := range cm.KBatches[n].IDs {
 					cm.ExtTx[id] = true
 				}
-				cm.Events = append(cm.Events, Event{Nonce: uint64(len(cm.Events)) + 2, Height: cm.Height, Kind: "batch", N: n})
+				cm.Events = append(cm.Events, Event{Nonce: uint64(len(cm.Events)) + s.firstNonce, Height: cm.Height, Kind: "batch", N: n, Tok: cm.KBatches[n].Tok})
 				ok(c, true)
 			}})
 		}
@@ -321,7 +365,7 @@ func (s *Spec) Ops(st *explore.State) []explore.Op {
 				cm := c.Model.(*Model)
 				cm.CallDone[n] = true
 				cm.ExtCall[n] = true
-				cm.Events = append(cm.Events, Event{Nonce: uint64(len(cm.Events)) + 2, Height: cm.Height, Kind: "call", N: n})
+				cm.Events = append(cm.Events, Event{Nonce: uint64(len(cm.Events)) + s.firstNonce, Height: cm.Height, Kind: "call", N: n})
 				ok(c, true)
 			}})
 		}
@@ -337,7 +381,7 @@ func (s *Spec) Ops(st *explore.State) []explore.Op {
 			case "deposit":
 				claim = scen.SendToFxClaim(ch, ev.Nonce, ev.Height, s.fx.Ext[ch], 1, scen.ExtAddr(ch, "depositor"), s.w.A("u2").Acc(), "", "")
 			case "batch":
-				claim = &cctypes.MsgSendToExternalClaim{EventNonce: ev.Nonce, BlockHeight: ev.Height, BatchNonce: ev.N, TokenContract: s.fx.Ext[ch], ChainName: ch}
+				claim = &cctypes.MsgSendToExternalClaim{EventNonce: ev.Nonce, BlockHeight: ev.Height, BatchNonce: ev.N, TokenContract: ev.Tok, ChainName: ch}
 			case "call":
 				claim = &cctypes.MsgBridgeCallResultClaim{ChainName: ch, EventNonce: ev.Nonce, BlockHeight: ev.Height, Nonce: ev.N, TxOrigin: scen.ExtAddr(ch, "origin"), Success: true}
 			}
